@@ -77,7 +77,7 @@ class Filenames(object):
         self.variables = variables or {}
         self.extension = extension
         self.invalid = invalid or {}
-        self.newFilename = self._newFilename()
+        self.newFilename = self._newFilename(self.variables.copy())
 
     def parseFilenames(self, spec):
         """ Parse and expand the filename string """
@@ -137,9 +137,8 @@ class Filenames(object):
             return filename + self.extension
         return filename
 
-    def _newFilename(self):
+    def _newFilename(self, g):
         """ Generator that generates new filenames """
-        g = self.variables.copy()
 
         # Split filenames into static and wildcard groups
         static = []
